@@ -1,0 +1,129 @@
+//go:build verif
+
+package gitindex
+
+import (
+	"bufio"
+	"io"
+	"os/exec"
+	"sort"
+	"unsafe"
+
+	"github.com/go-git/go-git/v5/plumbing"
+
+	"github.com/sourcegraph/zoekt/index"
+
+	git "github.com/go-git/go-git/v5"
+)
+
+// Verification hooks (C14); not part of the normal build.
+
+// VerifCatfile is a real catfileReader reading from an arbitrary stream instead of a git process.
+type VerifCatfile struct{ cr *catfileReader }
+
+// VerifNewCatfile wraps r in a catfileReader (bufio size bufSize; bufio's minimum is 16). The reader is
+// backed by an already-finished dummy process so that Close (called by indexCatfileBlobs) works.
+func VerifNewCatfile(r io.Reader, bufSize int) *VerifCatfile {
+	cmd := exec.Command("true")
+	_ = cmd.Start()
+	we := make(chan error)
+	close(we)
+	return &VerifCatfile{cr: &catfileReader{cmd: cmd, reader: bufio.NewReaderSize(r, bufSize), writeErr: we}}
+}
+
+func (v *VerifCatfile) Next() (size int, missing, excluded bool, err error) { return v.cr.Next() }
+func (v *VerifCatfile) Read(p []byte) (int, error)                           { return v.cr.Read(p) }
+func (v *VerifCatfile) Pending() int                                        { return v.cr.pending }
+func (v *VerifCatfile) Close() error                                        { return v.cr.Close() }
+
+// VerifKey is a fileKey with the hash in hex.
+type VerifKey struct {
+	SubRepoPath string
+	Path        string
+	ID          string
+}
+
+// VerifIndexCatfileBlobs runs the real indexCatfileBlobs over the given stream and keys into builder.
+func VerifIndexCatfileBlobs(v *VerifCatfile, keys []VerifKey, branches map[VerifKey][]string, opts Options, builder *index.Builder) error {
+	ks := make([]fileKey, 0, len(keys))
+	repos := map[fileKey]BlobLocation{}
+	for _, k := range keys {
+		fk := fileKey{SubRepoPath: k.SubRepoPath, Path: k.Path, ID: plumbing.NewHash(k.ID)}
+		ks = append(ks, fk)
+		repos[fk] = BlobLocation{Branches: branches[k]}
+	}
+	return indexCatfileBlobs(v.cr, ks, repos, opts, builder)
+}
+
+// VerifAlloc describes one contentSlab.alloc result.
+type VerifAlloc struct {
+	Len, Cap int
+	InSlab   bool // the slice lies inside the slab's current buffer
+	Off      int  // offset inside the slab buffer (InSlab only)
+	NewBuf   bool // this call replaced the slab buffer
+	SlabLen  int  // len(s.buf) after the call
+}
+
+// VerifSlab drives a real contentSlab.
+type VerifSlab struct{ s contentSlab }
+
+func VerifNewSlab(slabCap int) *VerifSlab { return &VerifSlab{s: newContentSlab(slabCap)} }
+
+func base(b []byte) unsafe.Pointer {
+	if cap(b) == 0 {
+		return nil
+	}
+	return unsafe.Pointer(unsafe.SliceData(b))
+}
+
+// Alloc calls the real alloc and reports where the returned slice lies; the slice itself is returned too.
+func (v *VerifSlab) Alloc(n int) ([]byte, VerifAlloc) {
+	before := base(v.s.buf)
+	r := v.s.alloc(n)
+	after := base(v.s.buf)
+	a := VerifAlloc{Len: len(r), Cap: cap(r), NewBuf: before != after, SlabLen: len(v.s.buf)}
+	if cap(v.s.buf) > 0 && cap(r) > 0 {
+		lo := uintptr(after)
+		p := uintptr(base(r))
+		if p >= lo && p < lo+uintptr(cap(v.s.buf)) {
+			a.InSlab = true
+			a.Off = int(p - lo)
+		}
+	} else if cap(r) == 0 && n == 0 {
+		// zero-length allocation: report it as lying at the current end of the slab when it came from it
+		a.InSlab = n <= v.s.cap
+		a.Off = len(v.s.buf)
+	}
+	return r, a
+}
+
+// VerifNormalFiles runs the real indexGitRepo with a spy around the real prepareNormalBuild and returns the
+// (path, blob) => branches map it computed (sorted by path, id; branch slices as stored).
+func VerifNormalFiles(opts Options) (bool, []VerifKeyBranches, error) {
+	var out []VerifKeyBranches
+	cfg := gitIndexConfig{
+		prepareNormalBuild: func(options Options, repository *git.Repository) (map[fileKey]BlobLocation, map[string]map[string]plumbing.Hash, error) {
+			repos, bv, err := prepareNormalBuild(options, repository)
+			if err == nil {
+				for k, v := range repos {
+					out = append(out, VerifKeyBranches{VerifKey{k.SubRepoPath, k.Path, k.ID.String()}, append([]string(nil), v.Branches...)})
+				}
+				sort.Slice(out, func(i, j int) bool {
+					a, b := out[i].Key, out[j].Key
+					if a.Path != b.Path {
+						return a.Path < b.Path
+					}
+					return a.ID < b.ID
+				})
+			}
+			return repos, bv, err
+		},
+	}
+	ok, err := indexGitRepo(opts, cfg)
+	return ok, out, err
+}
+
+type VerifKeyBranches struct {
+	Key      VerifKey
+	Branches []string
+}
